@@ -384,6 +384,7 @@ func (g *gen) applyContractEnv(ctr *Contract, key string, sig *types.Signature, 
 	for _, em := range ctr.Emits {
 		g.emitLog(&post, em)
 	}
+	g.applySets(&post, ctr)
 	return rv
 }
 
